@@ -21,6 +21,8 @@ def main(argv=None) -> int:
     c.add_argument("--only", default=None, help="run a single rule")
     c.add_argument("--no-selftest", action="store_true")
     sub.add_parser("list")
+    rp = sub.add_parser("replay")
+    rp.add_argument("path")
     s = sub.add_parser("selftest")
     s.add_argument("--prop", default=None)
     s.add_argument("--jobs", type=int, default=16)
@@ -36,6 +38,13 @@ def main(argv=None) -> int:
         for n, r in RULES.items():
             print(f"{n:24s} {','.join(r['props']):20s} tier={r['tier']} min={r['min_instances']}")
         return 0
+
+    if args.cmd == "replay":
+        import json
+
+        d = json.load(open(args.path))
+        print(f"replaying rule {d['finding']['rule']} of {d['property']} (recorded finding: {d['finding']['key']})")
+        return main(["check", d["property"], "--tier", "quick", "--only", d["finding"]["rule"]])
 
     if args.cmd == "selftest":
         from .selftest import run_selftest
